@@ -116,35 +116,7 @@ def run(ck):
     meths = m.methods("TranslatorSMT2")
     for k in KINDS:
         ck.ob("R2", "from_%s" % k, "from_" + k in meths, m.where(cls), "TranslatorSMT2 has no from_%s" % k)
-    f = meths["from_ExprSlice"]
-    ok = any(isinstance(c, ast.Call) and callee_attr(c) == "bv_extract" and [norm(a).replace(" ", "") for a in c.args[:2]] == ["expr.stop-1", "expr.start"] for c in walk_body(f))
-    ck.ob("R2", "slice:extract", ok, m.where(f), "a slice must be extract(stop-1, start)")
-    ex = hm.func("bv_extract")
-    ok = any(isinstance(n, ast.Return) and "(_ extract {} {})" in norm(n.value) and [norm(a) for a in n.value.args] == ["high", "low", "bv"] for n in walk_body(ex) if isinstance(n.value, ast.Call))
-    ck.ob("R2", "helper:bv_extract", ok, hm.where(ex), "bv_extract must emit ((_ extract high low) bv)")
-    f = meths["from_ExprCompose"]
-    ok = any(isinstance(c, ast.Call) and callee_attr(c) == "bv_concat" and [norm(a) for a in c.args] == ["e", "res"] for c in walk_body(f))
-    ck.ob("R2", "compose:later-high", ok, m.where(f), "later compose arguments must be concatenated on the high side")
-    f = meths["from_ExprCond"]
-    t = norm(ast.Module(body=f.body, type_ignores=[])).replace(" ", "")
-    ok = "zero=bit_vec_val(0,expr.cond.size)" in t and "distinct=smt2_distinct(cond,zero)" in t and "returnsmt2_ite(distinct_and,src1,src2)" in t and \
-        "src1=self.from_expr(expr.src1)" in t and "src2=self.from_expr(expr.src2)" in t
-    ck.ob("R2", "cond:nonzero-selects-src1", ok, m.where(f), "a conditional must be ite(cond distinct 0, src1, src2)")
-    ite = hm.func("smt2_ite")
-    ok = any(isinstance(n, ast.Return) and isinstance(n.value, ast.Call) and "(ite {} {} {})" in norm(n.value) and [norm(a) for a in n.value.args] == ["cond", "a", "b"]
-             for n in walk_body(ite))
-    ck.ob("R2", "helper:smt2_ite", ok, hm.where(ite), "smt2_ite must emit (ite cond a b)")
+    _cmp.structure_rules(ck, "R2", "smt2", m.where(cls))
 
     # ---------------------------------------------------------------- R3
-    g = m.func("SMT2Mem.get")
-    for n in walk_body(g):
-        if isinstance(n, ast.If) and norm(n.test) == "self.is_little_endian()":
-            for label, stmts, want in (("little", n.body, "res=bv_concat(self[index],res)"), ("big", n.orelse, "res=bv_concat(res,self[index])")):
-                t = norm(ast.Module(body=stmts, type_ignores=[])).replace(" ", "")
-                ok = "foriinrange(1,size//8):" in t and "index=bvadd(addr,bit_vec_val(i,addr_size))" in t and want in t
-                ck.ob("R3", "SMT2Mem.get:%s" % label, ok, m.where(n),
-                      "%s endian: each byte i must be read at addr + i (`index` bound in this branch) and concatenated on the %s side"
-                      % (label, "high" if label == "little" else "low"))
-    le = m.func("SMT2Mem.is_little_endian")
-    ok = any(isinstance(n, ast.Return) and norm(n.value) == "self.endianness == '<'" for n in walk_body(le))
-    ck.ob("R3", "SMT2Mem.is_little_endian", ok, m.where(le), "little endian is selected by '<'")
+    _cmp.memory_rules(ck, "R3", "smt2", m.where(m.func("SMT2Mem.get")))
